@@ -5,6 +5,7 @@ import (
 	"go/constant"
 	"go/token"
 	"go/types"
+	"sort"
 	"strings"
 
 	"golang.org/x/tools/go/ssa"
@@ -837,21 +838,24 @@ func (it *Interp) indexInt(v Value, t types.Type, n int) int {
 
 func (it *Interp) visitIndexAddr(fr *frame, instr *ssa.IndexAddr) Value {
 	x := fr.get(instr.X)
-	idx := fr.get(instr.Index)
+	idx, ityp := it.normIdx(fr.get(instr.Index), instr.Index.Type())
 	it.pendingIdx = nil
 	switch s := x.(type) {
 	case []Value:
-		return &s[it.indexInt(idx, instr.Index.Type(), len(s))]
+		if t, ok := idx.(*term.Term); ok && onlyLoaded(instr) {
+			return &s[it.indexByClass(t, ityp, s)]
+		}
+		return &s[it.indexInt(idx, ityp, len(s))]
 	case NumSlice:
 		// symbolic index into numeric storage: keep the index symbolic for a following load
 		if t, ok := idx.(*term.Term); ok && s.len <= it.MaxIteLen {
-			_, w := basicInfo(instr.Index.Type())
+			_, w := basicInfo(ityp)
 			if !it.branch(it.ts.Ult(t, it.ts.BV(uint64(s.len), w))) {
 				panic(it.runtimePanic(fmt.Sprintf("index out of range [symbolic] with length %d", s.len)))
 			}
 			return symBytePtr{s, t}
 		}
-		i := it.indexInt(idx, instr.Index.Type(), s.len)
+		i := it.indexInt(idx, ityp, s.len)
 		return BytePtr{s.buf, s.off + i*s.esz}
 	case *Value:
 		if s == nil {
@@ -860,25 +864,28 @@ func (it *Interp) visitIndexAddr(fr *frame, instr *ssa.IndexAddr) Value {
 		arrT := instr.X.Type().Underlying().(*types.Pointer).Elem().Underlying().(*types.Array)
 		switch a := (*s).(type) {
 		case Array:
-			return &a[it.indexInt(idx, instr.Index.Type(), len(a))]
+			if t, ok := idx.(*term.Term); ok && onlyLoaded(instr) {
+				return &a[it.indexByClass(t, ityp, []Value(a))]
+			}
+			return &a[it.indexInt(idx, ityp, len(a))]
 		case NumArray:
 			esz := sizeof(arrT.Elem())
 			n := int(arrT.Len())
 			if t, ok := idx.(*term.Term); ok && n <= it.MaxIteLen {
-				_, w := basicInfo(instr.Index.Type())
+				_, w := basicInfo(ityp)
 				if !it.branch(it.ts.Ult(t, it.ts.BV(uint64(n), w))) {
 					panic(it.runtimePanic(fmt.Sprintf("index out of range [symbolic] with length %d", n)))
 				}
 				return symBytePtr{NumSlice{buf: a.buf, off: 0, len: n, cap: n, esz: esz}, t}
 			}
-			return BytePtr{a.buf, it.indexInt(idx, instr.Index.Type(), n) * esz}
+			return BytePtr{a.buf, it.indexInt(idx, ityp, n) * esz}
 		}
 		panic(fmt.Sprintf("IndexAddr: pointer to %T", *s))
 	case BytePtr:
 		arrT := instr.X.Type().Underlying().(*types.Pointer).Elem().Underlying().(*types.Array)
 		esz := sizeof(arrT.Elem())
 		n := int(arrT.Len())
-		return BytePtr{s.buf, s.off + it.indexInt(idx, instr.Index.Type(), n)*esz}
+		return BytePtr{s.buf, s.off + it.indexInt(idx, ityp, n)*esz}
 	case nil:
 		panic(it.runtimePanic("index of nil slice"))
 	}
@@ -893,52 +900,93 @@ type symBytePtr struct {
 
 func (it *Interp) visitIndex(fr *frame, instr *ssa.Index) Value {
 	x := fr.get(instr.X)
-	idx := fr.get(instr.Index)
+	idx, ityp := it.normIdx(fr.get(instr.Index), instr.Index.Type())
 	switch a := x.(type) {
 	case Array:
-		return copyVal(a[it.indexInt(idx, instr.Index.Type(), len(a))])
+		return copyVal(a[it.indexInt(idx, ityp, len(a))])
 	case NumArray:
 		arrT := instr.X.Type().Underlying().(*types.Array)
 		esz := sizeof(arrT.Elem())
 		n := int(arrT.Len())
 		if t, ok := idx.(*term.Term); ok && n <= it.MaxIteLen {
-			_, w := basicInfo(instr.Index.Type())
+			_, w := basicInfo(ityp)
 			if !it.branch(it.ts.Ult(t, it.ts.BV(uint64(n), w))) {
 				panic(it.runtimePanic("index out of range"))
 			}
 			return it.loadSymIdx(NumSlice{buf: a.buf, len: n, cap: n, esz: esz}, t, arrT.Elem())
 		}
-		return it.loadNum(a.buf, it.indexInt(idx, instr.Index.Type(), n)*esz, arrT.Elem())
+		return it.loadNum(a.buf, it.indexInt(idx, ityp, n)*esz, arrT.Elem())
 	case string, SymStr:
 		n := strLen(a)
 		if t, ok := idx.(*term.Term); ok && n <= it.MaxIteLen {
-			_, w := basicInfo(instr.Index.Type())
+			_, w := basicInfo(ityp)
 			if !it.branch(it.ts.Ult(t, it.ts.BV(uint64(n), w))) {
 				panic(it.runtimePanic("index out of range"))
 			}
 			b, o, _ := strToBuf(a)
 			return it.loadSymIdx(NumSlice{buf: b, off: o, len: n, cap: n, esz: 1}, t, types.Typ[types.Uint8])
 		}
-		return it.strByte(a, it.indexInt(idx, instr.Index.Type(), n))
+		return it.strByte(a, it.indexInt(idx, ityp, n))
 	}
 	// generic type-parameter typed operands etc.
 	panic(unsupported(fmt.Sprintf("Index on %T", x)))
 }
 
-// loadSymIdx reads s[idx] for symbolic idx as an ite chain over all cells.
+// loadSymIdx reads s[idx] for symbolic idx as an ite over all cells; cells holding the same concrete
+// value are grouped (lookup tables have few distinct values).
 func (it *Interp) loadSymIdx(s NumSlice, idx *term.Term, elem types.Type) Value {
 	if _, ok := elem.Underlying().(*types.Array); ok {
 		i := int(it.concretize(idx, "index of array element"))
 		return it.loadNum(s.buf, s.off+i*s.esz, elem)
 	}
-	var r *term.Term
-	for i := s.len - 1; i >= 0; i-- {
+	type group struct {
+		v    *term.Term
+		idxs []int
+	}
+	var groups []*group
+	byVal := map[*term.Term]*group{}
+	for i := 0; i < s.len; i++ {
 		v := it.toTerm(it.loadNum(s.buf, s.off+i*s.esz, elem), elem)
-		if r == nil {
-			r = v
-		} else {
-			r = it.ts.Ite(it.ts.Eq(idx, it.ts.BV(uint64(i), idx.W)), v, r)
+		g := byVal[v]
+		if g == nil {
+			g = &group{v: v}
+			byVal[v] = g
+			groups = append(groups, g)
 		}
+		g.idxs = append(g.idxs, i)
+	}
+	// the largest group is the default
+	def := 0
+	for k, g := range groups {
+		if len(g.idxs) > len(groups[def].idxs) {
+			def = k
+		}
+	}
+	r := groups[def].v
+	for k, g := range groups {
+		if k == def {
+			continue
+		}
+		c := it.ts.False
+		// contiguous runs become range tests
+		for a := 0; a < len(g.idxs); {
+			b := a
+			for b+1 < len(g.idxs) && g.idxs[b+1] == g.idxs[b]+1 {
+				b++
+			}
+			var rc *term.Term
+			if b-a >= 2 {
+				rc = it.ts.And(it.ts.Ule(it.ts.BV(uint64(g.idxs[a]), idx.W), idx), it.ts.Ule(idx, it.ts.BV(uint64(g.idxs[b]), idx.W)))
+			} else {
+				rc = it.ts.False
+				for j := a; j <= b; j++ {
+					rc = it.ts.Or(rc, it.ts.Eq(idx, it.ts.BV(uint64(g.idxs[j]), idx.W)))
+				}
+			}
+			c = it.ts.Or(c, rc)
+			a = b + 1
+		}
+		r = it.ts.Ite(c, g.v, r)
 	}
 	return it.fromTerm(r, elem)
 }
@@ -966,19 +1014,19 @@ func (it *Interp) storeSymIdx(s NumSlice, idx *term.Term, elem types.Type, v Val
 
 func (it *Interp) visitLookup(fr *frame, instr *ssa.Lookup) Value {
 	x := fr.get(instr.X)
-	idx := fr.get(instr.Index)
+	idx, ityp := it.normIdx(fr.get(instr.Index), instr.Index.Type())
 	switch m := x.(type) {
 	case string, SymStr:
 		n := strLen(m)
 		if t, ok := idx.(*term.Term); ok && n <= it.MaxIteLen {
-			_, w := basicInfo(instr.Index.Type())
+			_, w := basicInfo(ityp)
 			if !it.branch(it.ts.Ult(t, it.ts.BV(uint64(n), w))) {
 				panic(it.runtimePanic("index out of range"))
 			}
 			b, o, _ := strToBuf(m)
 			return it.loadSymIdx(NumSlice{buf: b, off: o, len: n, cap: n, esz: 1}, t, types.Typ[types.Uint8])
 		}
-		return it.strByte(m, it.indexInt(idx, instr.Index.Type(), n))
+		return it.strByte(m, it.indexInt(idx, ityp, n))
 	case *MapObj:
 		mt := instr.X.Type().Underlying().(*types.Map)
 		var v Value
@@ -1283,4 +1331,119 @@ func (it *Interp) visitInit(fr *frame, instr ssa.Instruction) (k continuation) {
 		}
 	}()
 	return it.visit(fr, instr)
+}
+
+// onlyLoaded reports whether the address computed by instr is only ever dereferenced for reading.
+func onlyLoaded(instr *ssa.IndexAddr) bool {
+	refs := instr.Referrers()
+	if refs == nil {
+		return false
+	}
+	for _, r := range *refs {
+		u, ok := r.(*ssa.UnOp)
+		if !ok || u.Op != token.MUL {
+			if _, isDbg := r.(*ssa.DebugRef); isDbg {
+				continue
+			}
+			return false
+		}
+	}
+	return true
+}
+
+// indexByClass resolves a symbolic index into a table of boxed values for a read: indices whose cells
+// hold the same value form one class; the path forks per class (not per index) and the first index of
+// the class stands for it.
+func (it *Interp) indexByClass(idx *term.Term, t types.Type, cells []Value) int {
+	_, w := basicInfo(t)
+	n := len(cells)
+	if !it.branch(it.ts.Ult(idx, it.ts.BV(uint64(n), w))) {
+		panic(it.runtimePanic(fmt.Sprintf("index out of range [symbolic] with length %d", n)))
+	}
+	var reps []int
+	var members [][]int
+	for i, c := range cells {
+		found := false
+		for k, r := range reps {
+			if sameCell(cells[r], c) {
+				members[k] = append(members[k], i)
+				found = true
+				break
+			}
+		}
+		if !found {
+			reps = append(reps, i)
+			members = append(members, []int{i})
+		}
+	}
+	if len(reps) > 64 {
+		return int(it.concretize(idx, "index"))
+	}
+	// smallest classes first: the big default class is what remains
+	order := make([]int, len(reps))
+	for i := range order {
+		order[i] = i
+	}
+	sort.Slice(order, func(a, b int) bool { return len(members[order[a]]) < len(members[order[b]]) })
+	for oi, k := range order {
+		if oi == len(order)-1 {
+			return reps[k]
+		}
+		c := it.ts.False
+		for _, i := range members[k] {
+			c = it.ts.Or(c, it.ts.Eq(idx, it.ts.BV(uint64(i), w)))
+		}
+		if it.branch(c) {
+			return reps[k]
+		}
+	}
+	return reps[order[len(order)-1]]
+}
+
+func sameCell(a, b Value) bool {
+	switch x := a.(type) {
+	case NumSlice:
+		y, ok := b.(NumSlice)
+		return ok && x == y
+	case []Value:
+		y, ok := b.([]Value)
+		if !ok {
+			return false
+		}
+		if len(x) == 0 && len(y) == 0 {
+			return (x == nil) == (y == nil)
+		}
+		return len(x) == len(y) && &x[0] == &y[0]
+	case bool, uint64, float64, float32, string, *Value, BytePtr, nil:
+		return a == b
+	case Struct:
+		y, ok := b.(Struct)
+		if !ok || len(x) != len(y) {
+			return false
+		}
+		for i := range x {
+			if !sameCell(x[i], y[i]) {
+				return false
+			}
+		}
+		return true
+	}
+	return false
+}
+
+// normIdx widens a symbolic index of a narrow integer type to 64 bits (sign- or zero-extended) so
+// that bounds tests against the length never truncate the length.
+func (it *Interp) normIdx(idx Value, t types.Type) (Value, types.Type) {
+	tm, ok := idx.(*term.Term)
+	if !ok {
+		return idx, t
+	}
+	k, w := basicInfo(t)
+	if w == 64 || w == 0 {
+		return idx, t
+	}
+	if k == kInt {
+		return it.ts.Sext(tm, 64), types.Typ[types.Int]
+	}
+	return it.ts.Zext(tm, 64), types.Typ[types.Uint64]
 }
